@@ -37,6 +37,9 @@ STATIC_TREE = {
     "vs_reexport.py": "from vs_lib import lib_func, LibClass\nfrom vs_all import shown as shown_alias\n",
     "vs_pkg/__init__.py": "from .mod import pkg_func\n",
     "vs_pkg/mod.py": "def pkg_func():\n    return 'pkg'\n\n\ndef other_func():\n    return 'other'\n",
+    # mutual fallback: the last binding of `dumps` in each module is an import from the other
+    "vs_fast.py": '"""Accelerated helpers, falling back to the pure python ones."""\ntry:\n    from _vs_speedups import dumps\nexcept ImportError:\n    from vs_pure import dumps\n',
+    "vs_pure.py": '"""Pure python helpers; the accelerated versions are preferred when available."""\nimport json\n\n\ndef dumps(obj):\n    return json.dumps(obj, sort_keys=True)\n\n\ntry:\n    from vs_fast import dumps\nexcept ImportError:\n    pass\n',
 }
 
 
@@ -967,7 +970,15 @@ def generate_chains(rng: random.Random, profile: Dict[str, Any]) -> Dict[str, An
         entries = corp[profile["index"] :: profile["of"]]
         inputs = [e["source"] for e in entries]
     else:
-        inputs = [gen.pick_input(rng, corp) for _ in range(rng.randint(2, 4))]
+        inputs = []
+        for _ in range(rng.randint(2, 4)):
+            r = rng.random()
+            if r < 0.4:
+                inputs.append(gen.pick_input(rng, corp))
+            elif r < 0.85:
+                inputs.append(gen.gen_module(rng, process_dependent=rng.random() < 0.3, special=True))
+            else:
+                inputs.append(rng.choice(gen.STATIC_TREE_CLIENTS))
     ops: List[Dict[str, Any]] = []
     chains: List[List[int]] = [[] for _ in inputs]
     opts = []
@@ -979,8 +990,8 @@ def generate_chains(rng: random.Random, profile: Dict[str, Any]) -> Dict[str, An
             o["keep_imports"] = True
         if rng.random() < 0.2:
             o["preserve"] = sorted(gen.some_names(rng, x))
-        if rng.random() < 0.15:
-            o["max_line_length"] = rng.choice([60, 79, 120])
+        if rng.random() < (0.5 if "def deep_" in x else 0.15):
+            o["max_line_length"] = rng.choice([60, 60, 72, 79, 120])
         opts.append(o)
     order = [ci for ci in range(len(inputs)) for _ in range(6)]
     if profile.get("index") is None:
